@@ -144,6 +144,71 @@ def text_layout(rep, u, fname="sa_addr_port_to_str", addr_callee="sa_addr_to_str
     return cases
 
 
+def addr_text(rep, u, fname="sa_addr_to_str"):
+    """sa_addr_to_str over family x buffer size x libc outcome: capacity given to libc inside the buffer, reported size =
+    length of the text, success exactly when the text and its terminator fit"""
+    fn = need(u, fname)
+    rep.functions.add(fname)
+    pn = [p["n"] for p in fn.params]
+    p_addr, p_buf, p_size, p_ret = pn[:4]
+    ADDR, BUF, RET, SIN = 0x10000, 0x20000, 0x30000, 0x10008
+    called = {c.get("fn") for _, _, c, _ in fn.calls()}
+    for cal in ("inet_ntop", "sa_addr_get"):
+        if cal not in called:
+            raise driver.AnalysisBroken("%s no longer calls %s" % (fname, cal))
+    n = 0
+    bad = undec = None
+    for fam, size, L, ok in itertools.product((1, 2, 10), (1, 2, 8, 16, 46), (0, 1, 7, 15, 16, 45, 60), (True, False)):
+        if fam != 1 and ok and not (L < size - 1 or (L < size and size - 1 > L)):
+            continue            # inet_ntop succeeds only when text and terminator fit the size it was given
+        if fam == 1 and not ok:
+            continue
+        pe = r_stride.PE(u, call_default={"inet_ntop": BUF if ok else 0, "sa_addr_get": SIN, "strnlen": min(L, size), "strlcpy": L,
+                                           "__errno_location": 0x40000})
+        pe.memory[0x40000] = 28
+        bind = {p_addr: ADDR, "%s->ss_family" % p_addr: fam, p_buf: BUF, p_size: size, p_ret: RET, "*(__errno_location())": 28}
+        ev, ret = pe.trace(fn, bind)
+        what = "family=%s buf_size=%d text of %d bytes%s" % (FAM_NAME[fam], size, L, "" if ok else " (inet_ntop fails)")
+        if isinstance(ret, str):
+            undec = undec or "%s: %s" % (what, ret)
+            continue
+        n += 1
+
+        def val(x, b):
+            return r_mpt.eval_expr(x, {}, pe._hook(b, {}))
+        reported = None
+        for e, b in ev:
+            for x, ps in walk(e):
+                try:
+                    if x.get("k") == "call" and x.get("fn") in ("inet_ntop", "strlcpy"):
+                        a_ptr, a_cap = (x["args"][2], x["args"][3]) if x["fn"] == "inet_ntop" else (x["args"][0], x["args"][2])
+                        p_, cap = val(a_ptr, b), val(a_cap, b)
+                        if cap < 0 or p_ < BUF or p_ - BUF + cap > size:
+                            bad = bad or "%s: %s is given %d bytes at offset %d of a %d-byte buffer" % (what, x["fn"], cap, p_ - BUF, size)
+                    elif x.get("k") == "bin" and x["op"] == "=" and strip_casts(x["x"]).get("k") in ("sub", "un"):
+                        a = pe._addr(strip_casts(x["x"]), lambda z: val(z, b))
+                        if a == RET:
+                            reported = val(x["y"], b)
+                        elif BUF - 0x100 <= a < BUF + 0x1000 and not (0 <= a - BUF < size):
+                            bad = bad or "%s: store at byte %d of a %d-byte buffer" % (what, a - BUF, size)
+                except (r_mpt.Unknown, KeyError, TypeError):
+                    undec = undec or "%s: a value at line %s could not be evaluated" % (what, x.get("ln"))
+        if not ok:
+            if ret == 0:
+                bad = bad or "%s: success is returned" % what
+            continue
+        text = L if fam == 1 else min(L, size)
+        fits = text < size
+        if (ret == 0) != fits:
+            bad = bad or "%s: returns %s although the text and its terminator %s" % (what, ret, "fit" if fits else "do not fit")
+        elif reported is not None and reported != text:
+            bad = bad or "%s: reports a size of %s" % (what, reported)
+    desc = ("%s: libc gets a capacity inside the buffer, the reported size is the length of the text, success exactly when "
+            "text and terminator fit, for every family / buffer size / text length class" % fname)
+    (rep.violated if bad else rep.undecided if undec else rep.proved)("R-LAYOUT", fn, "addr-text", desc, bad or undec or "%d classes" % n)
+    return n
+
+
 # ------------------------------------------------------------------ R-TBL / R-SPEC masks
 
 def ref_mask32(i):
@@ -414,6 +479,7 @@ def run(rep, tier):
     rep.use_units(us)
     usa, unu = us[SA], us[NU]
     rep.floor("text layout call classes", text_layout(rep, usa), 100)
+    rep.floor("address text classes", addr_text(rep, usa), 40)
     table = mask_table(rep, unu)
     rep.floor("prefix lengths evaluated", mask_functions(rep, unu, table), 160)
     rep.floor("family switch arms", kind_rule(rep, usa, SA) + kind_rule(rep, unu, NU), 20)
